@@ -1599,13 +1599,11 @@ func describeCond(w *World, v ssa.Value, depth int, inline func(*ssa.Function)) 
 						}
 					}
 				}
-				if len(what) > 0 {
-					sort.Strings(what)
-					return []string{"cmp-string(" + strings.Join(what, ",") + ")"}
-				}
+				_ = what
+				return []string{"cmp-string"}
 			}
 			if c1 || c2 {
-				return []string{"cmp-const-string"}
+				return []string{"cmp-string"}
 			}
 		}
 		return append(describeCond(w, x.X, depth+1, inline), describeCond(w, x.Y, depth+1, inline)...)
